@@ -171,6 +171,18 @@ def main(tier, seed):
             continue                # (both directions limited to 2: not a transfer that can be completed)
         traces.append(tsmlib.record(rc))
         chk.case(("own-limit", nq, nr, cms, sms), nontrivial=True)
+    # (i-b) a request of exactly as many segments as the peer is known to accept goes through
+    for n in (2, 4):
+        rc = tsmlib.rig_cfg(seg=50, nq=n, nr=1, pwc=2, pws=2, known=True, known_maxsegs=n)
+        traces.append(tsmlib.record(rc))
+        chk.case(("known-maxsegs", n), nontrivial=True)
+    # (i-c) acks that arrive much later than the segment timeout (and a slow application): a stale ack of the request phase turns
+    # up while the response is being received
+    for delay_by, app_delay in ((1500, 0), (2500, 1500)):
+        rc = tsmlib.rig_cfg(seg=50, nq=3, nr=3, pwc=2, pws=2, delay_by=delay_by, app_delay=app_delay, retries=2)
+        for t in single_fault_traces(rc, kinds=("delay",), orders=("fifo", "timers")):
+            traces.append(t)
+            chk.case(("late-ack", delay_by, app_delay, tuple(t["faults"].items()), t["order"]), nontrivial=True)
     # (ii) every single fault at every frame, two scheduler orders; windows 1..8
     wins = [(w, 9 - w) for w in range(1, 9)] if thorough else [(1, 8), (2, 2), (3, 5), (8, 1)]
     for pwc, pws in wins:
